@@ -574,6 +574,24 @@ def run_launch(run):
                 subprocess.Popen, MC.Client, R.time.time, R.time.sleep = real
             run.case = label
             prove('one-process-launched', len(launches) == 1, path=path)
+            if fails == 0:
+                # a second session on the same Environment (after close()) gets a server of its own, whether or not the process of the first
+                # one has exited yet: close() does not wait for it
+                env.__dict__.pop('conn', None)
+                subprocess.Popen, MC.Client = FakePopen, fake_client
+                R.time.time = lambda: clock[0]
+                R.time.sleep = lambda t: clock.__setitem__(0, clock[0] + t)
+                del seen[:]
+                try:
+                    try:
+                        env._run()
+                        exc2 = None
+                    except Exception as e:
+                        exc2 = e
+                finally:
+                    subprocess.Popen, MC.Client, R.time.time, R.time.sleep = real
+                prove('next-session-launches-its-own-process', exc2 is None and len(launches) == 2 and launches[0] is not launches[1],
+                      clause='_run() after close() starts a new server process, also while the old one is still alive [launches %d, %r]' % (len(launches), exc2), path=path)
             piped = sorted(k for p_ in launches for k in ('stdin', 'stdout', 'stderr') if p_.kw.get(k) == subprocess.PIPE)
             prove('server-streams-are-not-pipes-nobody-reads', not piped,
                   clause='the server logs every failed request to stderr: a pipe the client never reads fills up (64 KiB) and the server blocks in the '
@@ -785,6 +803,56 @@ def close_and_call(run):
                   (getattr(e7, 'prepare_thread', None) is None or isinstance(e7.prepare_thread, Starter7)),
                   clause='prepare() starts the starter thread while it still holds prepare_lock: a thread that finds the handle under the lock can '
                          'join it (joining a thread that was not started raises RuntimeError) [%r]' % (events,), path=path)
+            # lock order: no two methods take the Environment's locks in opposite orders (one thread in close(), one in a call that has
+            # to start a server, would wait for each other for ever)
+            order = set()
+            for op in ('close-with-a-connection', 'call-without-a-connection', 'call-with-a-connection', 'prepare', 'run'):
+                e8 = R.Environment()
+                held8 = []
+
+                class Rec8(object):
+                    def __init__(self, name):
+                        self.name = name
+
+                    def _take(self):
+                        for h_ in held8:
+                            order.add((h_, self.name))
+                        held8.append(self.name)
+
+                    def acquire(self, *a, **k):
+                        self._take()
+                        return True
+
+                    def release(self):
+                        held8.remove(self.name)
+
+                    def __enter__(self):
+                        self._take()
+
+                    def __exit__(self, *a):
+                        held8.remove(self.name)
+                for k_, v_ in list(vars(e8).items()):
+                    if isinstance(v_, lock_types):
+                        setattr(e8, k_, Rec8(k_))
+                e8._run = lambda e8=e8: setattr(e8, 'conn', FakeConn(w))
+                if op in ('close-with-a-connection', 'call-with-a-connection'):
+                    e8.conn = FakeConn(w)
+                real_thread8 = R.Thread
+                R.Thread = lambda target=None: type('T8', (), {'start': lambda self: None, 'join': lambda self, timeout=None: None})()
+                try:
+                    if op.startswith('close'):
+                        e8.close()
+                    elif op.startswith('call'):
+                        e8._call('lint', 'src', 'f.py')
+                    else:
+                        getattr(e8, op)()
+                except Exception:
+                    pass
+                finally:
+                    R.Thread = real_thread8
+            inverted = sorted((a_, b_) for (a_, b_) in order if (b_, a_) in order and a_ < b_)
+            prove('locks-are-taken-in-one-order', not inverted,
+                  clause='no two locks of the Environment are ever taken in both orders [%r; orders seen: %r]' % (inverted, sorted(order)), path=path)
             prove('joiners-hold-the-start-up-lock', 'prepare_lock' in held_at_join, kind='lemma',
                   clause='run() and close() join the starter inside their critical section [locks held at the joins: %r]' % (sorted(held_at_join),), path=path)
             prove('starter-%s-waits-for-no-lock-a-joiner-holds' % ('fails' if fails else 'finishes'), not (set(waited) & held_at_join),
